@@ -1075,6 +1075,84 @@ impl PoolCase {
         vec![line]
     }
 
+    /// A `ReadBuf` that outlives every handle of its pool (second ring, pool of two buffers): after
+    /// the pool handle is dropped the `ReadBuf` is the last user of the shared pool state; `release`
+    /// must still give its buffer back (the kernel can use both buffers again) and the `ReadBuf` can
+    /// be used for another read.
+    fn do_lone(&mut self) -> Vec<String> {
+        if self.ps * self.bs > (8 << 20) {
+            return vec!["bad-op".into()];
+        }
+        self.feats.push("readbuf-outlives-pool-handle".into());
+        simk::purge_closed();
+        let before: Vec<i32> = simk::with_sim(|s| s.rings.keys().copied().collect());
+        let mut ring_b = match Ring::config().with_submission_queue_size(8).build() {
+            Ok(r) => r,
+            Err(e) => return vec![format!("lone setup-failed {e}")],
+        };
+        let sq_b = ring_b.sq();
+        let rfd_b = simk::with_sim(|s| s.rings.keys().copied().find(|k| !before.contains(k)).unwrap());
+        let raw_b = simk::with_ring(rfd_b, |r, _| r.fresh_fd());
+        let fd_b = unsafe { AsyncFd::from_raw_fd(raw_b, sq_b.clone()) };
+        let pool_b = match ReadBufPool::new(sq_b.clone(), 2, 8) {
+            Ok(p) => p,
+            Err(e) => return vec![format!("lone pool-failed {e}")],
+        };
+        let bgid_b = simk::with_ring(rfd_b, |r, _| r.pbufs.keys().next().copied()).unwrap_or(0);
+        let waker = util::waker(997);
+        let mut cx = Context::from_waker(&waker);
+        // one read through the second ring with `buf`; returns the buffer or an errno name
+        let mut read = |ring_b: &mut Ring, buf: ReadBuf| -> Result<ReadBuf, String> {
+            use std::future::Future;
+            let mut fut = Box::pin(fd_b.read(buf));
+            let first = util::catch(|| fut.as_mut().poll(&mut cx));
+            let _ = ring_b.poll(Some(Duration::ZERO));
+            let ud = simk::with_ring(rfd_b, |r, _| r.inflight.iter().find(|x| x.sqe.opcode == simk::OP_READ).map(|x| x.sqe.user_data));
+            if let Some(ud) = ud {
+                let mut spec = PostSpec::new(Target::UserData(ud), 3, 0);
+                spec.data = Some(vec![7, 8, 9]);
+                simk::with_ring(rfd_b, |r, ev| r.post(&spec, ev));
+            }
+            let _ = ring_b.poll(Some(Duration::ZERO));
+            let second = match first {
+                Ok(Poll::Pending) => util::catch(|| fut.as_mut().poll(&mut cx)),
+                other => other,
+            };
+            match second {
+                Err(_) => Err("panic".into()),
+                Ok(Poll::Pending) => Err("pending".into()),
+                Ok(Poll::Ready(Err(e))) => Err(util::errno_name(e.raw_os_error().unwrap_or(0))),
+                Ok(Poll::Ready(Ok(b))) => Ok(b),
+            }
+        };
+        let line = match read(&mut ring_b, pool_b.get()) {
+            Err(e) => format!("lone first-read {e}"),
+            Ok(mut rb) => {
+                drop(pool_b); // `rb` is now the only user of the pool
+                let _ = util::catch(|| rb.release());
+                let avail = simk::with_ring(rfd_b, |r, _| r.available_buffers(bgid_b).len());
+                if avail != 2 {
+                    self.fail("not-returned", format!("a ReadBuf that outlived every handle of its pool was released, but the kernel is offered {avail} of the 2 buffers: the buffer it held was not given back"));
+                }
+                let reuse = match read(&mut ring_b, rb) {
+                    Ok(b) => {
+                        drop(b);
+                        "ok".to_string()
+                    }
+                    Err(e) => format!("err {e}"),
+                };
+                format!("lone avail={avail} reuse={reuse}")
+            }
+        };
+        std::mem::forget(fd_b);
+        unsafe { libc::close(raw_b) };
+        drop(sq_b);
+        drop(ring_b);
+        let _ = util::drain_wakes();
+        let _ = simk::drain_events();
+        vec![line]
+    }
+
     fn do_end(&mut self) -> Vec<String> {
         for i in 0..self.ops.len() {
             if self.ops[i].fut.is_some() {
@@ -1233,6 +1311,7 @@ impl Case for PoolCase {
             if rng.chance(1, 2) { 1 } else { 0 },                                          // 12 ring
             if rng.chance(1, 12) { 2 } else { 0 },                                         // 13 malformed
             if self.ps * self.bs <= (8 << 20) && rng.chance(1, 10) { 2 } else { 0 },         // 14 xring
+            if self.ps * self.bs <= (8 << 20) && rng.chance(1, 12) { 2 } else { 0 },         // 15 lone
         ];
         Some(match rng.weighted(&w) {
             0 => "pool get".into(),
@@ -1290,6 +1369,7 @@ impl Case for PoolCase {
             11 => format!("pool cycle {}", if rng.chance(1, 3) { rng.range(1, (3 * self.ps as u64 + 3).min(150)) } else { rng.range(1, 6) }),
             12 => "pool ring".into(),
             14 => "pool xring".into(),
+            15 => "pool lone".into(),
             _ => {
                 // malformed stream
                 let i = rng.below(self.ops.len() as u64 + 2);
@@ -1407,6 +1487,7 @@ impl Case for PoolCase {
                 _ => vec!["bad-op".into()],
             },
             ["pool", "xring"] => self.do_xring(),
+            ["pool", "lone"] => self.do_lone(),
             ["pool", "ring"] => vec![self.show_ring()],
             ["pool", "end"] => self.do_end(),
             _ => vec!["bad-op".into()],
